@@ -482,12 +482,38 @@ def run_kernels(check, pool, Task):
     for sh in plan['polygon']:
         tasks.append(Task(f'kernel:polygon rings={sh} (UF+lemmas)', q_polygon, (sh, proved), {'timeout': cap, 'seed': check.seed},
                           timeout=cap + 60, meta={'kind': 'polygon', 'shape': sh}))
+    # float32 coordinate buffers: float32-typed differences are rounded (values.F32); small structures go to the solver, the
+    # others must show no float32-typed arithmetic at all (then they are the float64 obligations above)
+    f32plan = [('line', [2], True), ('line', [3], False), ('line', [2, 2], False), ('polygon', [[3]], False), ('polygon', [[3, 3]], False), ('polygon', [[3], [3]], False)]
+    if tier == 'thorough':
+        f32plan += [('line', [3], True), ('line', [2, 2], True), ('polygon', [[3]], True), ('line', [4], False), ('polygon', [[4, 3]], False), ('polygon', [[3, 3], [3]], False)]
+    for kind, st, solve in f32plan:
+        tasks.append(Task(f"kernel:float32 buffer, {kind} {st} ({'exact, monolithic' if solve else 'float32-typed operations'})", q_f32, (kind, st),
+                          {'timeout': min(cap, 600), 'seed': check.seed, 'solve': solve}, timeout=min(cap, 600) + 60,
+                          meta={'kind': 'line' if kind == 'line' else 'polygon', 'parts': st, 'shape': st, 'f32': True, 'noretry': True}))
+    check.bounds['float32'] = ('integer coordinates |c| <= 2^24 (exactly representable in float32), box float64; sums/differences of two float32 values rounded to '
+                               'float32 (round-half-even); a float32 x float32 product would be reported as unsupported, none occurs in these kernels')
     tasks.sort(key=lambda t: -sum(map(lambda x: sum(x) if isinstance(x, list) else x, t.meta.get('shape', []) or [0])))
     res = pool(tasks)
     need_search = set()
     for t in tasks:
         r = res.get(t.name, {'status': 'error', 'detail': 'no result'})
         meta = t.meta
+        if meta.get('f32'):
+            if r['status'] == 'sat':
+                verdict = replay_model(check, t.name, meta, r['model'], dtypes=('float32',), key_prefix='C01:float32')
+                st_ = {'violation': 'violated', 'known': 'known-finding'}.get(verdict)
+                if st_:
+                    check.record(t.name, dict(r, status=st_), 'kernel', meta)
+                else:
+                    check.record(t.name, dict(r, status='inconclusive', detail=f'float32 counterexample did not reproduce on the real code ({verdict}): {r.get("model")}'), 'kernel', meta)
+            elif r['status'] == 'unsat' and not r.get('reduced') and (r.get('f32_typed_operations') or 0) > 0:
+                check.record(t.name, r, 'kernel', meta)
+            elif r['status'] == 'unsat':
+                check.record(t.name, r, 'kernel', meta)
+            else:
+                check.record(t.name, dict(r, status='inconclusive' if r['status'] == 'unknown' else r['status']), 'kernel', meta)
+            continue
         if r['status'] == 'sat':
             verdict = replay_model(check, t.name, meta, r['model'])
             if verdict in ('violation', 'known'):
@@ -512,7 +538,7 @@ def run_kernels(check, pool, Task):
                 check.inconc(f"{o['name']}: {o['status']} and the exact witness search found no reproducible counterexample")
 
 
-def replay_model(check, name, meta, model, dtypes=('float64',)):
+def replay_model(check, name, meta, model, dtypes=('float64',), key_prefix='C01'):
     verdicts = []
     for dt in dtypes:
         try:
@@ -525,7 +551,7 @@ def replay_model(check, name, meta, model, dtypes=('float64',)):
         except Exception as e:  # noqa: BLE001
             check.harness_error(f"replay of {name} failed: {type(e).__name__}: {e}")
             return 'spurious'
-        verdicts.append(judge(check, name, rp, 'C01'))
+        verdicts.append(judge(check, name, rp, key_prefix))
     for v in ('violation', 'known', 'out-of-domain'):
         if v in verdicts:
             return v
@@ -565,3 +591,78 @@ def witness_search(check, pool, Task, kinds):
             # a time-out here is expected on a correct tree (the monolithic query is hard) and decides nothing
             check.record(t.group, dict(r, status='search-' + str(r['status'])), 'search', t.meta)
     return found
+
+
+# ------------------------------------------------------------------------------------------------ float32 coordinate subtype
+B24 = 1 << 24
+
+
+def q_f32(kind, struct, timeout=300, seed=0, bnd=B24, solve=True):
+    """box kernels on a float32 coordinate buffer (values.F32 mode).  numba types float32 (op) float32 as float32, so a
+    difference of two buffer values beyond 2^24 is rounded (round-half-even, modelled exactly for integers up to 2^25);
+    everything that involves the float64 box is float64.  Integer coordinates |c| <= bnd, all exactly representable in
+    float32; exact multiplication (no uninterpreted products).  When the symbolic run performs no float32-typed
+    arithmetic at all, the encoding is the float64 one and the float64 obligation of the same structure decides it
+    (`reduced`); otherwise the solver looks for a box on which the rounded computation and the exact oracle differ."""
+    values.set_mul_mode('exact')
+    values.F32['on'] = True
+    values.F32['rounded'] = 0
+    t0 = time.time()
+
+    def mark(vs):
+        flat = np.empty(2 * len(vs), dtype=object)
+        for i, v in enumerate(vs):
+            flat[2 * i], flat[2 * i + 1] = Num(v[0], False, 0, True), Num(v[1], False, 0, True)
+        return flat
+    try:
+        it = mk()
+        bx, box = sym_box()
+        bxn = [Num(b) for b in bx]
+        result = it.np.zeros(1, dtype=np.bool_)
+        cons = []
+        if kind == 'line':
+            parts = [[(z3.Int(f'p{pi}x{i}'), z3.Int(f'p{pi}y{i}')) for i in range(k)] for pi, k in enumerate(struct)]
+            flat_vs = [v for p in parts for v in p]
+            offs = [0]
+            for p in parts:
+                offs.append(offs[-1] + 2 * len(p))
+            if len(parts) == 1:
+                it.call(it.func(ALG, 'lines_intersect_bounds'), [*bxn, mark(flat_vs), np.array([0], dtype=np.uint32), np.array([offs[-1]], dtype=np.uint32), result])
+            else:
+                it.call(it.func(ALG, 'multilines_intersect_bounds'), [*bxn, mark(flat_vs), np.array([0], dtype=np.uint32), np.array([len(parts)], dtype=np.uint32),
+                                                                      np.array(offs, dtype=np.uint32), result])
+            spec = line_spec(parts, box)
+            allv = [t for v in flat_vs for t in v] + bx
+        else:
+            polys = build_polys(struct)
+            flat_vs = [v for rings in polys for r in rings for v in r]
+            roffs = [0]
+            for rings in polys:
+                for r in rings:
+                    roffs.append(roffs[-1] + 2 * len(r))
+            if len(polys) == 1:
+                it.call(it.func(ALG, 'polygons_intersect_bounds'), [*bxn, mark(flat_vs), np.array([0], dtype=np.uint32), np.array([len(polys[0])], dtype=np.uint32),
+                                                                    np.array(roffs, dtype=np.uint32), result])
+            else:
+                poffs = [0]
+                for rings in polys:
+                    poffs.append(poffs[-1] + len(rings))
+                it.call(it.func(ALG, 'multipolygons_intersect_bounds'), [*bxn, mark(flat_vs), np.array([0], dtype=np.uint32), np.array([len(polys)], dtype=np.uint32),
+                                                                         np.array(poffs, dtype=np.uint32), np.array(roffs, dtype=np.uint32), result])
+            spec = poly_spec(polys, box)
+            allv = list({str(t): t for v in flat_vs for t in v}.values()) + bx
+            for rings in polys:
+                cons += hole_in_shell_bbox(rings)
+    finally:
+        values.F32['on'] = False
+    rounded = values.F32['rounded']
+    impl = tz(result[0])
+    extra = {'f32_typed_operations': rounded, 'bound': bnd}
+    if rounded == 0 and not solve:
+        return {'status': 'unsat', 'reduced': True, 'solver_s': 0.0, 'queries': 0, 'formula_size': 1, 'encoded': it.encoded, 'symex_s': round(time.time() - t0, 2),
+                'detail': 'no float32-typed arithmetic in the symbolic run: the encoding is the float64 one, decided by the float64 obligation of this structure', **extra}
+    s = z3.Solver()
+    s.add(*rng(allv, bnd))
+    s.add(bx[0] != bx[2], bx[1] != bx[3])
+    s.add(*cons)
+    return finish_query(s, impl, spec, allv, it, timeout, seed, t0, extra=extra)
